@@ -475,6 +475,16 @@ func (e *Engine) load(place *Term, ctx *Ctx, at ssa.Value) *Term {
 	if place.Op == OpIte {
 		return e.mk(OpIte, "", at, place.Args[0], e.load(place.Args[1], ctx, at), e.load(place.Args[2], ctx, at))
 	}
+	for p := place; p != nil; {
+		if p.Ctx == initialValue {
+			return place // the value the caller passed in, untouched by the library
+		}
+		if (p.Op == OpField || p.Op == OpIndex || p.Op == OpAddr) && len(p.Args) > 0 {
+			p = p.Args[0]
+			continue
+		}
+		break
+	}
 	base, path := splitPlace(place)
 	if base.Op == OpAddrG && len(path) == 0 {
 		return e.loadGlobal(base, at, ctx)
@@ -502,15 +512,14 @@ func (e *Engine) load(place *Term, ctx *Ctx, at ssa.Value) *Term {
 		atInstr, _ = at.(ssa.Instruction)
 	}
 	bs := base.String()
-	type cand struct {
-		w   *Write
-		rel int
-		ex  bool
-	}
 	var cands []cand
 	var allocCtx *Ctx
 	if c, ok := base.Ctx.(*Ctx); ok {
 		allocCtx = c
+	}
+	if !ctx.Unknown {
+		e.active = append(e.active, ctx)
+		defer func() { e.active = e.active[:len(e.active)-1] }()
 	}
 	if e.phase == 1 {
 		e.deferCount++
@@ -519,10 +528,15 @@ func (e *Engine) load(place *Term, ctx *Ctx, at ssa.Value) *Term {
 	e.buildWrites()
 	{
 		for _, w := range e.allWrites {
-			if w.Base != bs && e.aliasOf(w.Base, ctx) != bs {
-				continue
+			wpath := w.Path
+			if w.Base != bs {
+				ab, ap := e.aliasOf(w.Base, ctx)
+				if ab != bs {
+					continue
+				}
+				wpath = append(append([]string{}, ap...), w.Path...)
 			}
-			rel, ex := pathRel(w.Path, path)
+			rel, ex := pathRel(wpath, path)
 			if rel == 0 {
 				continue
 			}
@@ -536,7 +550,7 @@ func (e *Engine) load(place *Term, ctx *Ctx, at ssa.Value) *Term {
 					continue
 				}
 			}
-			cands = append(cands, cand{w, rel, ex})
+			cands = append(cands, cand{w, rel, ex, wpath})
 		}
 	}
 	// struct-valued load with field-level writes: assemble per field
@@ -647,7 +661,7 @@ func (e *Engine) load(place *Term, ctx *Ctx, at ssa.Value) *Term {
 			v = c.w.Val()
 		}
 		// apply the remaining path
-		rest := path[len(c.w.Path):]
+		rest := path[len(c.path):]
 		for _, step := range rest {
 			if strings.HasPrefix(step, ".") {
 				v = e.fieldOf(v, step[1:], at, ctx)
@@ -656,6 +670,14 @@ func (e *Engine) load(place *Term, ctx *Ctx, at ssa.Value) *Term {
 			}
 		}
 		alts = append(alts, v)
+	}
+	if !must && len(visible) == 1 && base.Op != OpNew && len(visible[0].path) == len(path) {
+		// `if p.f == nil { p.f = fresh }`: the old value survives only when it was non-nil
+		if st, ok := visible[0].w.Instr.(*ssa.Store); ok && guardedByNilTestOf(st) {
+			v := e.Eval(st.Val, e.ctxFor(visible[0].w.Fn, ctx, allocCtx))
+			old := &Term{Op: place.Op, Name: place.Name, Args: place.Args, Pos: place.Pos, Typ: place.Typ, Val: place.Val, Ctx: initialValue}
+			return e.mk(OpIte, "", at, e.mk(OpBin, "==", nil, place, C("nil")), v, old)
+		}
 	}
 	if !must {
 		if base.Op == OpNew && len(visible) == 0 && isArrayObj(place) {
@@ -896,4 +918,56 @@ func isInitStore(w *Write) bool {
 		}
 	}
 	return true
+}
+
+type cand struct {
+	w    *Write
+	rel  int
+	ex   bool
+	path []string
+}
+
+type initialMarker struct{}
+
+// initialValue marks a place term that stands for the value the place held
+// before any library write (the caller's value).
+var initialValue = &initialMarker{}
+
+// guardedByNilTestOf: the store `*addr = v` sits in a block entered only
+// through the true edge of `*addr == nil` (the same address expression).
+func guardedByNilTestOf(st *ssa.Store) bool {
+	b := st.Block()
+	if len(b.Preds) != 1 {
+		return false
+	}
+	p := b.Preds[0]
+	iff, ok := p.Instrs[len(p.Instrs)-1].(*ssa.If)
+	if !ok || p.Succs[0] != b {
+		return false
+	}
+	bo, ok := iff.Cond.(*ssa.BinOp)
+	if !ok || bo.Op != token.EQL {
+		return false
+	}
+	c, ok := bo.Y.(*ssa.Const)
+	if !ok || !c.IsNil() {
+		return false
+	}
+	ld, ok := bo.X.(*ssa.UnOp)
+	if !ok || ld.Op != token.MUL {
+		return false
+	}
+	return sameAddr(ld.X, st.Addr)
+}
+
+func sameAddr(a, b ssa.Value) bool {
+	if a == b {
+		return true
+	}
+	fa, ok1 := a.(*ssa.FieldAddr)
+	fb, ok2 := b.(*ssa.FieldAddr)
+	if ok1 && ok2 {
+		return fa.Field == fb.Field && sameAddr(fa.X, fb.X)
+	}
+	return false
 }
